@@ -53,6 +53,11 @@ def moment_laws(chk, ctx, rng, n):
         absorbed = dt * ((0.5 / nu) * 2 / dx[0] * w[0] * out[0] + (0.5 / nu) * 2 / dx[-1] * w[-1] * out[-1])
         if not math.isclose(m2, m1 - absorbed, rel_tol=1e-9, abs_tol=1e-12 * abs(m1)):
             chk.fail('mass-law:step', 'mass after step %.12g, law mass - dt*absorbed = %.12g' % (m2, m1 - absorbed), inp)
+        # mean-frequency law (C01_mean_step): sum w x phi changes only through the absorbing term at x = 1
+        f1 = float(np.sum(w * xx * inj)); f2 = float(np.sum(w * xx * out))
+        fixed = dt * (0.5 / nu) * 2 / dx[-1] * w[-1] * out[-1]
+        if not math.isclose(f2, f1 - fixed, rel_tol=1e-9, abs_tol=1e-12 * abs(f1)):
+            chk.fail('mean-law:step', 'mean frequency after one neutral step %.12g, law mean - dt*w_last*bc_last*phi_last = %.12g' % (f2, f1 - fixed), inp)
 
 # ---------------------------------------------------------------- B/C: coalescent convergence
 _EQ = {}
